@@ -22,7 +22,7 @@ pub struct SchedCase
 {
     pub graph: GraphSpec,
     pub prefix: Vec<Op>,
-    /// (rule pick, kind): 0 failif flag, 1 always fail, 2 does not generate one target
+    /// (rule pick, kind): 0 failif flag, 1 always fail, 2 does not generate one target, 3 first script line fails but the later lines write every target
     pub fail: Vec<(u16, u8)>,
     pub missing: Vec<u16>,
     pub goal: Option<u16>,
@@ -56,8 +56,15 @@ pub fn prepare(c: &SchedCase) -> Result<Prepared, String>
         let r = &mut w.model.rules[ri];
         let mut all: Vec<Instr> = r.script.iter().flatten().cloned().collect();
         all.retain(|i| !matches!(i, Instr::FailOn { .. }));
-        match kind % 3
+        let mut late_fail_line: Option<Vec<Instr>> = None;
+        match kind % 4
         {
+            3 =>
+            {
+                let flag = format!("flag{}", k);
+                late_fail_line = Some(vec![Instr::FailIf { flag: flag.clone() }]);
+                flags.push(flag);
+            }
             0 =>
             {
                 let flag = format!("flag{}", k);
@@ -79,7 +86,7 @@ pub fn prepare(c: &SchedCase) -> Result<Prepared, String>
                 }
             }
         }
-        r.script = vec![all];
+        r.script = match late_fail_line { Some(l) => vec![l, all], None => vec![all] };
         originals.push((ri, orig));
     }
     for f in flags.iter()
@@ -353,6 +360,55 @@ pub fn test_case(which: Which, budget: &Budget, c: &SchedCase, stats: &mut Stats
     let (enumd, complete) = single_preemptions(steps, budget.enum_budget);
     scheds.extend(enumd);
     scheds.extend(c.scheds.iter().cloned());
+    // directed: preempt exactly where a thread is about to touch a cache entry that another thread touches too
+    // (addressed by thread/operation/occurrence). Second preemption points are taken from the yield log of the run with
+    // the first one, so operations that only exist on the racy path (a re-check after a failed rename) are reachable.
+    let directed_on = which == Which::C06 || which == Which::C03;
+    let cache_path_of = |tag: &str| -> Option<String>
+    {
+        let rest = tag.splitn(2, ':').nth(1)?;
+        rest.split('>').find(|x| x.starts_with(".ruler/cache/")).map(|x| x.to_string())
+    };
+    let conflict_events = |ylog: &Vec<(usize, String)>| -> Vec<(usize, String, u32)>
+    {
+        let mut by_path: BTreeMap<String, BTreeSet<usize>> = BTreeMap::new();
+        for (t, tag) in ylog.iter()
+        {
+            if let Some(cp) = cache_path_of(tag) { by_path.entry(cp).or_default().insert(*t); }
+        }
+        let mut seen: BTreeMap<(usize, String), u32> = BTreeMap::new();
+        let mut events = vec![];
+        for (t, tag) in ylog.iter()
+        {
+            let n = seen.entry((*t, tag.clone())).or_insert(0);
+            *n += 1;
+            if let Some(cp) = cache_path_of(tag)
+            {
+                if by_path.get(&cp).map(|s| s.len() >= 2).unwrap_or(false)
+                {
+                    events.push((*t, tag.clone(), *n));
+                }
+            }
+        }
+        events
+    };
+    let mut directed_first: Vec<Sched> = vec![];
+    if directed_on
+    {
+        let ylog = p.world.dry_run_yields(&p.inv);
+        let events = conflict_events(&ylog);
+        for e in events.iter()
+        {
+            for c0 in 0..2u16
+            {
+                if directed_first.len() >= budget.enum_budget / 3 { break; }
+                directed_first.push(Sched::OnTag { points: vec![(e.0, e.1.clone(), e.2, c0)] });
+            }
+        }
+        if !events.is_empty() { stats.class("has-cache-conflict-points"); }
+    }
+    let n_first = directed_first.len();
+    scheds.extend(directed_first);
     if complete { stats.class("all-single-preemption-schedules"); } else { stats.class("sampled-single-preemption-schedules"); }
     stats.count("steps_serial", steps);
 
@@ -362,11 +418,36 @@ pub fn test_case(which: Which, budget: &Budget, c: &SchedCase, stats: &mut Stats
     let mut shared_cache_entry = false;
     let mut c04_nt = false;
     let mut events_seen = (false, false, false); // send to dropped receiver, recv on closed, join blocked
-    for s in scheds.iter()
+    let mut directed_pairs = 0usize;
+    let mut idx = 0usize;
+    while idx < scheds.len()
     {
+        let s = scheds[idx].clone();
+        let s = &s;
+        idx += 1;
+        let is_first_directed = matches!(s, Sched::OnTag { points } if points.len() == 1);
         let mut w = p.world.fork();
-        let obs = w.invoke(p.inv.clone(), s, None);
+        let obs = w.invoke_opts(p.inv.clone(), s, None, is_first_directed && directed_on);
         stats.count("runs", 1);
+        if is_first_directed && directed_on && obs.events.preemptions > 0
+        {
+            if let Sched::OnTag { points } = s
+            {
+                let first = points[0].clone();
+                let evs = conflict_events(&obs.yields);
+                // position of the first point in this run's event list
+                let pos = evs.iter().position(|e| e.0 == first.0 && e.1 == first.1 && e.2 == first.2).map(|x| x + 1).unwrap_or(0);
+                for e2 in evs.iter().skip(pos)
+                {
+                    for c2 in 0..2u16
+                    {
+                        if directed_pairs >= budget.enum_budget { break; }
+                        scheds.push(Sched::OnTag { points: vec![first.clone(), (e2.0, e2.1.clone(), e2.2, c2)] });
+                        directed_pairs += 1;
+                    }
+                }
+            }
+        }
         if obs.events.preemptions > 0
         {
             preempted = true;
@@ -477,6 +558,8 @@ pub fn test_case(which: Which, budget: &Budget, c: &SchedCase, stats: &mut Stats
             }
         }
     }
+    stats.count("directed_single_schedules", n_first as u64);
+    stats.count("directed_pair_schedules", directed_pairs as u64);
     let w = &p.world;
     let edges = w.model.rules.iter().map(|r| r.sources.iter().filter(|s| w.model.producer_of(s).is_some()).count()).sum::<usize>();
     match which
@@ -505,6 +588,75 @@ pub fn test_case(which: Which, budget: &Budget, c: &SchedCase, stats: &mut Stats
 }
 
 // ------------------------------------------------------------------------------------
+// C05 on arbitrary rule sets (cycles, duplicate targets, missing goals): whatever dependency analysis says,
+// build and clean must come back
+
+pub fn test_arbitrary_rules(c: &crate::verif::props::c12::SortCase, stats: &mut Stats) -> Result<(), String>
+{
+    use crate::verif::vsys::VerifSystem;
+    use crate::verif::engine::{RecPrinter, summarize};
+    let sys = VerifSystem::new(Clock::Distinct);
+    let mut text = String::new();
+    let mut all_targets = BTreeSet::new();
+    for (t, _, _) in c.rules.iter() { for x in t { all_targets.insert(x.clone()); } }
+    for (i, (t, s, _)) in c.rules.iter().enumerate()
+    {
+        for x in t { text.push_str(x); text.push('\n'); }
+        text.push_str(":\n");
+        for x in s
+        {
+            text.push_str(x);
+            text.push('\n');
+            if !all_targets.contains(x) && (i + x.len()) % 5 != 0
+            {
+                sys.h_write(x, b"leaf");
+            }
+        }
+        text.push_str(":\n");
+        let cmd: Vec<String> = t.iter().map(|x| format!("emit {} const K{}", x, i)).collect();
+        text.push_str(&cmd.join(" && "));
+        text.push_str("\n:\n\n");
+    }
+    sys.h_write("build.rules", text.as_bytes());
+    let scheds = [Sched::Serial { highest: false }, Sched::Serial { highest: true }, Sched::Random { seed: c.shuffle_seed, switch_num: 8 }, Sched::Random { seed: c.shuffle_seed ^ 77, switch_num: 3 }];
+    for (k, sch) in scheds.iter().enumerate()
+    {
+        for clean in [false, true]
+        {
+            let s2 = sys.fork();
+            let goal = c.goal.clone();
+            let taken = std::sync::Arc::new(std::sync::Mutex::new(0u32));
+            let diverged = std::sync::Arc::new(std::sync::Mutex::new(false));
+            let policy = engine::make_policy(sch, 0, taken, diverged);
+            let out = crate::verif::sched::run_controlled(policy, false, move ||
+            {
+                let mut p = RecPrinter::new();
+                if clean { crate::build::clean(s2, ".ruler", vec!["build.rules".to_string()], goal) }
+                else { crate::build::build(s2, &mut p, crate::build::BuildParams::from_all(".ruler".to_string(), vec!["build.rules".to_string()], None, goal)) }
+            });
+            stats.count("arbitrary_rule_set_runs", 1);
+            let what = if clean { "clean" } else { "build" };
+            if let Some(d) = out.deadlock
+            {
+                return Err(format!("{} of an arbitrary rule set did not terminate (schedule #{}): {}; rules file:\n{}", what, k, d, text));
+            }
+            if !out.panics.is_empty()
+            {
+                return Err(format!("{} of an arbitrary rule set panicked: {}; rules file:\n{}", what, out.panics.join(" | "), text));
+            }
+            match out.result.map(|r| r.map_err(|e| summarize(&e)))
+            {
+                None => return Err(format!("{} of an arbitrary rule set did not return", what)),
+                Some(Err(ErrSum::Sender)) | Some(Err(ErrSum::Receiver)) | Some(Err(ErrSum::Weird)) => return Err(format!("{} returned an internal channel/thread error; rules file:\n{}", what, text)),
+                Some(Err(ErrSum::TopoSort(_))) => stats.class("arbitrary-rules-rejected-by-sort"),
+                Some(_) => stats.class("arbitrary-rules-accepted"),
+            }
+        }
+    }
+    Ok(())
+}
+
+// ------------------------------------------------------------------------------------
 // generators
 
 fn prefix() -> impl Strategy<Value = Vec<Op>>
@@ -521,6 +673,8 @@ fn prefix() -> impl Strategy<Value = Vec<Op>>
         // one rule displaces content that another rule wants back in the same build
         3 => (any::<u16>(), 0u8..5, any::<u16>(), 0u8..5).prop_map(|(l1, c1, l2, c2)| vec![Op::Build { goal: None }, Op::Edit { leaf: l1, content: c1 }, Op::Build { goal: None },
             Op::Edit { leaf: l2, content: c2 }, Op::Revert { leaf: l1 }]),
+        3 => (any::<u16>(), 0u8..5, any::<u16>(), 0u8..5).prop_map(|(l1, c1, l2, c2)| vec![Op::Build { goal: None }, Op::Edit { leaf: l1, content: c1 }, Op::Build { goal: None },
+            Op::Revert { leaf: l1 }, Op::Edit { leaf: l2, content: c2 }]),
         2 => (any::<u16>(), any::<u16>()).prop_map(|(a, b)| vec![Op::Build { goal: None }, Op::Swap { a, b }, Op::Build { goal: None }, Op::Swap { a, b }]),
         3 => gen::ops(OpMix { rule_edits: true, ruler_dir_damage: false, cleans: true, delete_leaf: false, swaps: 1 }, 6),
     ]
@@ -530,16 +684,16 @@ pub fn strategy(which: Which, max_rules: usize, extra_scheds: usize) -> impl Str
 {
     let (fail_max, missing_max) = match which
     {
-        Which::C03 => (0usize, 0usize),
+        Which::C03 => (1usize, 0usize),
         Which::C04 => (3, 2),
         Which::C05 => (3, 2),
         Which::C06 => (1, 1),
     };
-    let allow_failon = which != Which::C03;
+    let allow_failon = true;
     (
         gen::graph_spec(max_rules, allow_failon),
         prefix(),
-        proptest::collection::vec((any::<u16>(), 0u8..3), if which == Which::C04 { 1..=fail_max.max(1) } else { 0..=fail_max }),
+        proptest::collection::vec((any::<u16>(), 0u8..4), if which == Which::C04 { 1..=fail_max.max(1) } else { 0..=fail_max }),
         proptest::collection::vec(any::<u16>(), 0..=missing_max),
         prop_oneof![3 => Just(None), 1 => any::<u16>().prop_map(Some)],
         if which == Which::C05 || which == Which::C06 { prop_oneof![4 => Just(false), 1 => Just(true)].boxed() } else { Just(false).boxed() },
@@ -554,12 +708,18 @@ pub fn strategy(which: Which, max_rules: usize, extra_scheds: usize) -> impl Str
             let c0 = graph.leaf_contents.get(0).cloned().unwrap_or(0);
             for c in graph.leaf_contents.iter_mut() { *c = c0; }
             graph.rules.truncate(4);
+            let nl = graph.n_leaves as u32;
+            let mut earlier_targets = 0u32;
             for (i, r) in graph.rules.iter_mut().enumerate()
             {
                 r.kinds = vec![2, 2, 2];
-                r.srcs = vec![((i as u32 * 65536 / graph.n_leaves as u32 + 100) % 65536) as u16];
                 r.failon = None;
-                r.n_targets = r.n_targets.min(2);
+                r.n_targets = r.n_targets.min(2).max(1);
+                // candidates are the leaves followed by every earlier target: aim at leaf (i mod leaves)
+                let len = nl + earlier_targets;
+                let leaf = i as u32 % nl;
+                r.srcs = vec![((leaf * 65536 + 65535) / len + 1).min(65535) as u16];
+                earlier_targets += r.n_targets as u32;
             }
         }
         else if which == Which::C06
@@ -594,7 +754,7 @@ macro_rules! sched_prop
             }
             let (cases, max_rules, extra, enum_budget) = ctx.tier.pick($quick, $thorough);
             let budget = Budget { enum_budget };
-            rep.absorb(drive::drive(ctx, $salt, cases, || strategy($which, max_rules, extra), |c, st| test_case($which, &budget, c, st)));
+            rep.absorb(drive::drive_opts(ctx, $salt, cases, 300, || strategy($which, max_rules, extra), |c, st| test_case($which, &budget, c, st)));
             rep
         }
 
@@ -616,7 +776,7 @@ sched_prop!(Which::C03, test_c03, run_c03, replay_c03, 3, (1200u32, 6usize, 12us
      evenly when over budget) and generated preemption-bounded / random-walk / PCT schedules. Oracle at every execute_command entry: each declared source exists with its \
      reference content and is never modified later in the invocation; plus C01 and the status lines on every run. Non-trivial = >=2 rules with a rule-to-rule edge and at \
      least one preemption actually taken; distinct by case hash",
-    ["interleavings at yield points only: channel send/recv, spawn/join, thread exit and every System call; commands are atomic", "no failing rules here (C04's domain)"]);
+    ["interleavings at yield points only: channel send/recv, spawn/join, thread exit and every System call; commands are atomic", "at most one failing rule per scenario here (placements of failures are C04's domain); a command that starts although one of its sources cannot be produced is a violation"]);
 
 sched_prop!(Which::C04, test_c04, run_c04, replay_c04, 4, (2500u32, 6usize, 8usize, 80usize), (20000u32, 9usize, 30usize, 600usize),
     "scenario = graph x 1-3 failing rules (failif flag / always fail / one target never generated / failon leaf content) x 0-2 missing leaves x initial state x schedules \
@@ -626,11 +786,37 @@ sched_prop!(Which::C04, test_c04, run_c04, replay_c04, 4, (2500u32, 6usize, 8usi
      had work to do, and a preemption was taken; distinct by case hash",
     ["a rule that is up to date and never runs is not expected to fail; error order is not compared", "a failing command writes nothing"]);
 
-sched_prop!(Which::C05, test_c05, run_c05, replay_c05, 5, (1600u32, 7usize, 16usize, 240usize), (12000u32, 10usize, 80usize, 2000usize),
+pub fn run_c05(ctx: &Ctx) -> Report
+{
+    let mut rep = run_c05_scenarios(ctx);
+    let cases = ctx.tier.pick(3000u32, 40000);
+    let mut extra = drive::drive(ctx, 55, cases, || crate::verif::props::c12::strategy(10), |c, st| { st.class("arbitrary-rule-set"); test_arbitrary_rules(c, st) });
+    for f in extra.1.iter_mut()
+    {
+        f.case = json!({ "arbitrary_rules": f.case });
+    }
+    rep.absorb(extra);
+    rep
+}
+
+pub fn replay_c05(ctx: &Ctx, case: &serde_json::Value) -> Result<(), String>
+{
+    if let Some(inner) = case.get("arbitrary_rules")
+    {
+        let c: crate::verif::props::c12::SortCase = drive::parse_case(inner)?;
+        let mut st = Stats::default();
+        return test_arbitrary_rules(&c, &mut st);
+    }
+    replay_c05_scenarios(ctx, case)
+}
+
+sched_prop!(Which::C05, test_c05, run_c05_scenarios, replay_c05_scenarios, 5, (1600u32, 7usize, 16usize, 240usize), (12000u32, 10usize, 80usize, 2000usize),
     "scenario = accepted graph (fan-in/out, diamonds, triangles, components, multi-target edges, goal-restricted) x failing rules and missing leaves x initial state x final \
      build OR clean x schedules (2 serial, single-preemption enumeration, generated preemption-bounded / random-walk / PCT). Oracle: the scheduler never finds every \
      unfinished thread blocked, no panic in any thread or at the call boundary, and the result is not SenderError / ReceiverError / Weird. Non-trivial = a preemption was taken \
-     and the run had failing rules, a send to a dropped receiver, a receive on a closed channel or a join on an unfinished thread; distinct by case hash",
+     and the run had failing rules, a send to a dropped receiver, a receive on a closed channel or a join on an unfinished thread; distinct by case hash. \
+     In addition arbitrary generated rule sets (C12's generator: cycles, self-dependence, duplicate targets, missing goals, missing leaves) are written to a rules file and \
+     built and cleaned under 4 schedules each: whatever dependency analysis answers, the call must return (class arbitrary-rule-set, counter arbitrary_rule_set_runs)",
     ["deadlock is decided from the complete blocked-on relation of the scheduler shim, never from elapsed time"]);
 
 sched_prop!(Which::C06, test_c06, run_c06, replay_c06, 6, (1500u32, 6usize, 12usize, 240usize), (10000u32, 9usize, 60usize, 2000usize),
